@@ -196,6 +196,12 @@ def run_shard(tier, seed, shard, n, R):
     rng = random.Random(seed * 7919 + shard)
     seeds = list(whole.SEEDS) + whole.repo_sources(bootstrap.repo_path())
     R.count("seed_programs", len(seeds) if shard == 0 else 0)
+    if shard == 0:
+        # every recorded known finding is re-demonstrated on its own witness in every run
+        from ..driver import load_known
+        for kf in load_known().get("known", []):
+            if kf.get("property") == PROPERTY and kf.get("witness"):
+                check_candidate(R, obs, rng, kf["witness"], "known-finding-witness")
     for i, s in enumerate(seeds):
         if i % n == shard:
             check_candidate(R, obs, rng, s, "seed")
